@@ -21,6 +21,10 @@ pub enum Fault {
     Resize(usize, i32),
     DropFlst,
     DropFlfi,
+    /// the announcement arrives twice (adjacent, or again after k further messages)
+    DupFlst(usize),
+    /// the end marker arrives twice
+    DupFlfi,
 }
 
 #[derive(Clone, Debug, Serialize, Deserialize)]
@@ -48,6 +52,9 @@ pub struct Case {
     pub auto_save_glob: String,
     /// base names pre-seeded in the auto-save directory
     pub preexisting: Vec<String>,
+    /// base names present in the auto-save directory as dangling symbolic links that point outside of it
+    #[serde(default)]
+    pub dangling_links: Vec<String>,
     /// faults to apply to transfer 0; None in the list = fault-free configuration. Empty = enumerate all single faults
     pub faults: Vec<Fault>,
     /// fault applied to the other transfers (cycled)
@@ -188,6 +195,19 @@ fn sender_msgs(t: &Transfer, f: &Fault) -> Vec<DltMessage> {
                 v.swap(a, b);
             }
         }
+        Fault::DupFlst(k) => {
+            if let Some(p) = v.iter().position(|(x, _)| *x == 0) {
+                let c = v[p].clone();
+                let at = std::cmp::min(v.len(), p + 1 + *k);
+                v.insert(at, c);
+            }
+        }
+        Fault::DupFlfi => {
+            if let Some(p) = v.iter().position(|(x, _)| *x == -1) {
+                let c = v[p].clone();
+                v.insert(p + 1, c);
+            }
+        }
         _ => {}
     }
     v.into_iter().map(|(_, m)| m).collect()
@@ -195,7 +215,7 @@ fn sender_msgs(t: &Transfer, f: &Fault) -> Vec<DltMessage> {
 
 pub fn all_single_faults(t: &Transfer) -> Vec<Fault> {
     let n = n_packages(t);
-    let mut v = vec![Fault::None, Fault::DropFlst, Fault::DropFlfi];
+    let mut v = vec![Fault::None, Fault::DropFlst, Fault::DropFlfi, Fault::DupFlst(0), Fault::DupFlst(2), Fault::DupFlfi];
     let idxs: Vec<usize> = if n <= 24 { (1..=n).collect() } else { vec![1, 2, 3, n / 2, n - 2, n - 1, n] };
     for i in idxs {
         v.push(Fault::Drop(i));
@@ -284,6 +304,12 @@ fn run_one(c: &Case, f0: &Fault, ctx: &mut Ctx) -> Result<(), Violation> {
     for p in &c.preexisting {
         std::fs::write(autodir.join(p), b"pre-existing content").unwrap();
     }
+    for p in &c.dangling_links {
+        if !c.preexisting.contains(p) {
+            let _ = std::os::unix::fs::symlink(root.join("sandbox").join(format!("outside_via_link_{}", p)), autodir.join(p));
+            ctx.probe("dangling_symlink_in_autosave_dir");
+        }
+    }
     let before = snapshot(&root);
     let mut cfg = serde_json::json!({"name":"FileTransfer","enabled":true,"allowSave":c.allow_save,"keepFLDA":c.keep_flda});
     if c.auto_save {
@@ -352,7 +378,12 @@ fn run_one(c: &Case, f0: &Fault, ctx: &mut Ctx) -> Result<(), Violation> {
         let f = if ti == 0 { f0.clone() } else if c.other_faults.is_empty() { Fault::None } else { c.other_faults[(ti - 1) % c.other_faults.len()].clone() };
         let n = n_packages(t);
         // the same (ecu, lifecycle, serial) must not be used twice in one case
-        let must_complete = matches!(f, Fault::None | Fault::DupAdjacent(_) | Fault::DupDelayed(_, _) | Fault::DropFlfi) && !t.data.is_empty();
+        let must_complete = matches!(f, Fault::None | Fault::DupAdjacent(_) | Fault::DupDelayed(_, _) | Fault::DropFlfi | Fault::DupFlst(_) | Fault::DupFlfi) && !t.data.is_empty();
+        match f {
+            Fault::DupFlst(_) => ctx.probe("duplicate_announcement"),
+            Fault::DupFlfi => ctx.probe("duplicate_end_marker"),
+            _ => {}
+        }
         let must_not_complete = match &f {
             Fault::Drop(i) | Fault::Swap(i) => *i >= 1 && *i <= n,
             Fault::Resize(i, d) => *i >= 1 && *i <= n && *d != 0,
@@ -365,6 +396,8 @@ fn run_one(c: &Case, f0: &Fault, ctx: &mut Ctx) -> Result<(), Violation> {
             let cls = match f {
                 Fault::DupAdjacent(i) | Fault::DupDelayed(i, _) if i < n => "duplicate-of-non-last-package-not-tolerated",
                 Fault::None => "complete-transfer-not-recognised",
+                Fault::DupFlst(_) => "duplicate-announcement-not-tolerated",
+                Fault::DupFlfi => "duplicate-end-marker-not-tolerated",
                 _ => "transfer-not-complete",
             };
             viol!(cls, "{}: not reported complete although all packages arrived in order: {:?}", tag, obs.as_ref().map(|o| o.label.clone()));
@@ -499,6 +532,19 @@ impl Check for C17 {
                 }
             }
         }
+        let mut dangling_links = vec![];
+        {
+            let mut l = rng.sub("links");
+            for t in &transfers {
+                if l.chance(1, 5) {
+                    if let Some(b) = base_name(&t.name) {
+                        if !preexisting.contains(&b) && !dangling_links.contains(&b) {
+                            dangling_links.push(b);
+                        }
+                    }
+                }
+            }
+        }
         Case {
             transfers,
             interleave,
@@ -507,6 +553,7 @@ impl Check for C17 {
             auto_save: rng.chance(2, 3),
             auto_save_glob: (*rng.pick(&["*", "**/*", "*.bin", "*.txt", "a/*"])).to_string(),
             preexisting,
+            dangling_links,
             faults: vec![],
             other_faults,
         }
@@ -541,6 +588,8 @@ impl Check for C17 {
                 Fault::Resize(_, _) => "resize_package",
                 Fault::DropFlst => "drop_announcement",
                 Fault::DropFlfi => "drop_end_marker",
+                Fault::DupFlst(_) => "duplicate_announcement",
+                Fault::DupFlfi => "duplicate_end_marker",
             };
             ctx.cfg(k);
             ctx.fired(k);
@@ -618,7 +667,7 @@ impl Check for C17 {
         }
     }
     fn rule() -> &'static str {
-        "one run = one transfer configuration (1-3 concurrent senders with distinct ECU/lifecycle/serial, file sizes {1, b-1, b, b+1, k*b, random <= 64 KiB} x package sizes {1, 7, 10, 64, 1024, 4096, = file}, both byte orders, SINT/UINT package numbers, file names with directory parts, interleaving with unrelated traffic, auto-save directory pre-seeded with same base names) for which EVERY single fault on the first transfer is enumerated (none, drop/duplicate adjacent/duplicate delayed/swap/resize of every package up to 24 packages, else 7 representative positions; drop announcement; drop end marker) while the other transfers carry a random single fault; each (configuration, fault) is one evaluation; distinct = hash of the configuration"
+        "one run = one transfer configuration (1-3 concurrent senders with distinct ECU/lifecycle/serial, file sizes {1, b-1, b, b+1, k*b, random <= 64 KiB} x package sizes {1, 7, 10, 64, 1024, 4096, = file}, both byte orders, SINT/UINT package numbers, file names with directory parts, interleaving with unrelated traffic, auto-save directory pre-seeded with same base names as regular files or as dangling symbolic links pointing outside) for which EVERY single fault on the first transfer is enumerated (none, drop/duplicate adjacent/duplicate delayed/swap/resize of every package up to 24 packages, else 7 representative positions; drop announcement; drop end marker; duplicate announcement adjacent/delayed; duplicate end marker) while the other transfers carry a random single fault; each (configuration, fault) is one evaluation; distinct = hash of the configuration"
     }
     fn assumptions() -> Vec<&'static str> {
         vec![
@@ -634,6 +683,6 @@ impl Check for C17 {
         vec!["senders and transport (generator)", "file system = real fs inside a per-run sandbox with canary parent"]
     }
     fn required_reach() -> Vec<&'static str> {
-        vec!["drop_package", "duplicate_adjacent", "swap_packages", "resize_package", "drop_announcement", "drop_end_marker", "concurrent_transfers", "manual_saves_compared", "auto_saves_compared", "preexisting_file_in_autosave_dir"]
+        vec!["drop_package", "duplicate_adjacent", "swap_packages", "resize_package", "drop_announcement", "drop_end_marker", "concurrent_transfers", "manual_saves_compared", "auto_saves_compared", "preexisting_file_in_autosave_dir", "dangling_symlink_in_autosave_dir", "duplicate_announcement", "duplicate_end_marker"]
     }
 }
